@@ -4,10 +4,9 @@
 #include "nv_tensor.h"
 #include <stdlib.h>
 #ifdef NV_ELEM
-/* integer elements: the conversion to double is kept uninterpreted (a function of the integer): enough for the
- * protocol, nothing is bit-blasted */
-double __CPROVER_uninterpreted_i2d(int64_t);
-#define NV_TOD(x) __CPROVER_uninterpreted_i2d(x)
+/* integer elements: the conversion to scalar_t that std::upper_bound performs when it hands an element to the comparator
+ * (a real, monotone conversion: sorted integers stay sorted as scalars) */
+#define NV_TOD(x) ((double)(x))
 #else
 #define NV_TOD(x) (x)
 #endif
@@ -20,6 +19,16 @@ int64_t nv_bo, nv_eo;                /* ghost: offsets of a sub-range */
 int64_t nv_cov;                      /* ghost: positions [0, nv_cov) have been assigned to a bin */
 int64_t nv_calls;                    /* ghost: number of update_bin calls */
 int64_t nv_gb, nv_gp;                /* ghost indices: an arbitrary bin and an arbitrary value position */
+int64_t nv_gq, nv_gj;                /* ghost indices: a second value position, an arbitrary threshold position */
+NV_ELEM nv_ev, nv_ew;                /* ghost: the values at positions nv_gp, nv_gq (each cell is read once, in the precondition) */
+double nv_tj, nv_tlo, nv_thi;        /* ghost: the thresholds at positions nv_gj, nv_gb - 1, nv_gb */
+/* REPRESENTATION INVARIANT of histogram_t, stated at the ghost indices (no quantifier): the values and the thresholds are in
+ * ascending order and the thresholds are not NaN.  Established by the constructor (std::sort, specs/C20/ctor.h), required by
+ * update(): it is the precondition of its std::upper_bound calls and what turns "t_{b-1} <= v < t_b" into the counting rule. */
+#define NV_GHOST_CELLS(vbase, vcount, thr) (0 <= nv_gq && nv_gq < (vcount) && 0 <= nv_gj && nv_gj < (thr).n && nv_ev == (vbase)[nv_gp] && nv_ew == (vbase)[nv_gq] && \
+  nv_gv == NV_TOD(nv_ev) && nv_tj == (thr).p[nv_gj] && (nv_gb > 0 ==> nv_tlo == (thr).p[nv_gb - 1]) && (nv_gb < (thr).n ==> nv_thi == (thr).p[nv_gb]))
+#define NV_VALUES_SORTED ((nv_gp <= nv_gq ==> nv_ev <= nv_ew) && (nv_gq <= nv_gp ==> nv_ew <= nv_ev))
+#define NV_THR_SORTED(k) ((nv_gj <= nv_gb - 1 ==> nv_tj <= nv_tlo) && (nv_gb <= nv_gj ==> nv_thi <= nv_tj) && ((0 < nv_gb && nv_gb < (k)) ==> nv_tlo <= nv_thi))
 double nv_gv;                        /* ghost: the value at position nv_gp as a double (defined by the precondition; the values are not written) */
 int64_t nv_lo, nv_hi; _Bool nv_seen; /* ghost: the range recorded for bin nv_gb */
 
@@ -31,7 +40,9 @@ static NV_ELEM* nv_upper_bound_cmp(NV_ELEM* first, NV_ELEM* last, double val)
 {
   int64_t n = last - first, idx = nv_nondet_int64_t();
   __CPROVER_assume(0 <= idx && idx <= n);
-  int64_t g = nv_gp - (first - nv_base);
+  int64_t g = nv_gp - (first - nv_base), h = nv_gq - (first - nv_base);
+  /* precondition of std::upper_bound: elements with !comp(val, elem) precede those with comp(val, elem) (at the ghost pair) */
+  if (0 <= g && g <= h && h < n) __CPROVER_assert(!update_op(val, nv_gv) || update_op(val, NV_TOD(nv_ew)), "std::upper_bound: the range is partitioned with respect to the comparator (the values are sorted)");
   if (0 <= g && g < n) __CPROVER_assume((g < idx) ? !update_op(val, nv_gv) : update_op(val, nv_gv));
   return first + idx;
 }
@@ -41,7 +52,9 @@ static NV_ELEM* nv_lower_bound_elem(NV_ELEM* first, NV_ELEM* last, NV_ELEM val)
 {
   int64_t n = last - first, idx = nv_nondet_int64_t();
   __CPROVER_assume(0 <= idx && idx <= n);
-  int64_t g = nv_gp - (first - nv_base);
+  int64_t g = nv_gp - (first - nv_base), h = nv_gq - (first - nv_base);
+  /* precondition of std::lower_bound: elements with elem < val precede the others (at the ghost pair) */
+  if (0 <= g && g <= h && h < n) __CPROVER_assert(!(nv_ew < val) || (nv_ev < val), "std::lower_bound: the range is partitioned with respect to elem < val (the values are sorted)");
   if (0 <= g && g < n) __CPROVER_assume((g < idx) ? (first[g] < val) : !(first[g] < val));
   return first + idx;
 }
@@ -57,8 +70,11 @@ static int64_t nv_t1d_size(const struct nv_t1d* t) { return t->n; }
 
 /* update_bin(begin, end, bin): count = end - begin written to slot bin; mean and median computed over exactly [begin, end);
  * NaN for an empty range; consecutive calls tile the values (coverage ghost) */
-double __CPROVER_uninterpreted_range_mean(int64_t, int64_t), __CPROVER_uninterpreted_range_median(int64_t, int64_t);
-static double nv_mean_range(NV_ELEM* b, NV_ELEM* e, int64_t count) { __CPROVER_assert(count == e - b && count > 0, "mean over a non-empty range with its own length"); return __CPROVER_uninterpreted_range_mean(b - nv_base, e - nv_base); }
+double __CPROVER_uninterpreted_scalar_sum(int64_t, int64_t), __CPROVER_uninterpreted_range_median(int64_t, int64_t);
+/* histogram_t::mean by the contract proved for it per sample type (specs/C20/mean.h, targets mean_<type>): its precondition is
+ * an obligation here, its result is the scalar_t sum of the range divided by the length of the range */
+#define NV_RANGE_MEAN(bo, eo) NV_FDIV(__CPROVER_uninterpreted_scalar_sum(bo, eo), (double)((eo) - (bo)))
+static double nv_mean_range(NV_ELEM* b, NV_ELEM* e, int64_t count) { __CPROVER_assert(count == e - b && count > 0, "mean over a non-empty range with its own length"); return NV_RANGE_MEAN(b - nv_base, e - nv_base); }
 static double nv_median_sorted_range(NV_ELEM* b, NV_ELEM* e) { __CPROVER_assert(b < e, "median of a non-empty range"); return __CPROVER_uninterpreted_range_median(b - nv_base, e - nv_base); }
 static double nv_quiet_nan(void) { double x = nv_nondet_double(); __CPROVER_assume(x != x); return x; }
 #define NV_CONTRACT_update_bin \
@@ -68,7 +84,7 @@ __CPROVER_requires(self->m_bin_means.n == self->m_bin_counts.n && self->m_bin_me
 __CPROVER_requires(0 <= nv_bo && nv_bo <= nv_eo && nv_eo <= nv_n && begin == nv_base + nv_bo && end == nv_base + nv_eo) \
 __CPROVER_assigns(self->m_bin_counts.p[bin], self->m_bin_means.p[bin], self->m_bin_medians.p[bin]) \
 __CPROVER_ensures(self->m_bin_counts.p[bin] == end - begin) \
-__CPROVER_ensures((end - begin > 0) ==> (NV_SAME(self->m_bin_means.p[bin], __CPROVER_uninterpreted_range_mean(begin - nv_base, end - nv_base)) && NV_SAME(self->m_bin_medians.p[bin], __CPROVER_uninterpreted_range_median(begin - nv_base, end - nv_base)))) \
+__CPROVER_ensures((end - begin > 0) ==> (NV_SAME(self->m_bin_means.p[bin], NV_RANGE_MEAN(begin - nv_base, end - nv_base)) && NV_SAME(self->m_bin_medians.p[bin], __CPROVER_uninterpreted_range_median(begin - nv_base, end - nv_base)))) \
 __CPROVER_ensures((end - begin == 0) ==> (self->m_bin_means.p[bin] != self->m_bin_means.p[bin] && self->m_bin_medians.p[bin] != self->m_bin_medians.p[bin]))
 
 /* the same function as seen from update(): additionally maintains the coverage ghosts */
@@ -86,16 +102,20 @@ static void update_bin_cov(struct nv_histogram* self, NV_ELEM* begin, NV_ELEM* e
 #define NV_CONTRACT_histogram_update \
 __CPROVER_requires(__CPROVER_is_fresh(self, sizeof(*self)) && NV_HIST_VALUES && NV_T1D_OK(self->m_thresholds) && self->m_thresholds.n >= 1) \
 __CPROVER_requires(begin == nv_base && end == nv_base + nv_n && nv_cov == 0 && nv_calls == 0 && !nv_seen) \
-__CPROVER_requires(0 <= nv_gb && nv_gb <= self->m_thresholds.n && 0 <= nv_gp && nv_gp < nv_n && nv_gv == NV_TOD(nv_base[nv_gp])) \
-/* values and thresholds are not NaN (they were sorted) */ \
-__CPROVER_requires((nv_gb < self->m_thresholds.n ==> self->m_thresholds.p[nv_gb] == self->m_thresholds.p[nv_gb]) && (nv_gb > 0 ==> self->m_thresholds.p[nv_gb - 1] == self->m_thresholds.p[nv_gb - 1])) \
+__CPROVER_requires(0 <= nv_gb && nv_gb <= self->m_thresholds.n && 0 <= nv_gp && nv_gp < nv_n) \
+/* the representation invariant: sorted values, sorted thresholds (not NaN), at the ghost indices */ \
+__CPROVER_requires(NV_GHOST_CELLS(nv_base, nv_n, self->m_thresholds) && NV_VALUES_SORTED && NV_THR_SORTED(self->m_thresholds.n)) \
 __CPROVER_assigns(self->m_bin_means, self->m_bin_counts, self->m_bin_medians, nv_cov, nv_calls, nv_lo, nv_hi, nv_seen) \
 /* one slot per bin, bins = thresholds + 1 (the invariant bin() relies on) */ \
 __CPROVER_ensures(self->m_bin_counts.n == self->m_thresholds.n + 1 && self->m_bin_means.n == self->m_bin_counts.n && self->m_bin_medians.n == self->m_bin_counts.n) \
+/* ... each in a buffer of its own (so that a caller can use this contract in place of the call) */ \
+__CPROVER_ensures(__CPROVER_is_fresh(self->m_bin_counts.p, self->m_bin_counts.n * sizeof(int64_t)) && __CPROVER_is_fresh(self->m_bin_means.p, self->m_bin_means.n * sizeof(double)) && __CPROVER_is_fresh(self->m_bin_medians.p, self->m_bin_medians.n * sizeof(double))) \
 /* the bins partition the values: consecutive ranges, every bin filled once, everything covered */ \
 __CPROVER_ensures(nv_cov == nv_n && nv_calls == self->m_thresholds.n + 1 && nv_seen && 0 <= nv_lo && nv_lo <= nv_hi && nv_hi <= nv_n) \
 /* a value lies in the range of bin b only if the counting rule puts it there: t_{b-1} <= v < t_b */ \
 __CPROVER_ensures((nv_lo <= nv_gp && nv_gp < nv_hi) ==> NV_IN_BIN(nv_gb, nv_gv)) \
+/* ... which, the thresholds being sorted, is the COUNTING RULE bin(v) states: the bin index is #{j : t_j <= v} (at the ghost threshold) */ \
+__CPROVER_ensures((nv_lo <= nv_gp && nv_gp < nv_hi) ==> ((nv_gj < nv_gb) ? (nv_tj <= nv_gv) : (nv_gv < nv_tj))) \
 __CPROVER_ensures(self->m_bin_counts.p[nv_gb] == nv_hi - nv_lo)
 #define NV_LOOP_histogram_update_1 \
 __CPROVER_assigns(bin, begin, nv_cov, nv_calls, nv_lo, nv_hi, nv_seen, __CPROVER_object_whole(self->m_bin_counts.p), __CPROVER_object_whole(self->m_bin_means.p), __CPROVER_object_whole(self->m_bin_medians.p)) \
